@@ -30,6 +30,7 @@ def check(ctx):
     rng = np.random.default_rng(ctx.seed)
     ctx.rule = ("cells as in C06; well-conditioned random datasets (3x over-determined, design condition number < 1e8 checked with an independent dense design matrix); "
                 "relations: fit(a f1 + b f2), snapshot permutation across batch boundaries (batch sizes 1,2,5), duplication x2/x3, scaling s in {-2,0.5,3} for single orders, zero forces")
+    sparse_relations(ctx, np.random.default_rng(ctx.seed + 41))
     for cname, diag in solver_cells(ctx.quick):
         P = Prepared(cname, diag, rng)
         for orders in COMBOS:
@@ -105,3 +106,38 @@ def check(ctx):
             ctx.case({**descr, "relation": "zero"}, nontrivial=True)
             if any(np.abs(z[m]).max() > 1e-12 for m in orders):
                 ctx.fail("oracle", "C13/oracle/zero", f"{P.sc['name']} orders {orders}: zero forces give non-zero force constants", replay={**rep, "relation": "zero"}, has_input=True)
+
+
+def sparse_relations(ctx, rng, prefix="C13/oracle/sparse-data"):
+    """The multiset / batch relations on finite-displacement datasets (exact zeros, clamped atom, sign-definite columns, +/- pairs
+    split over batches) on symmetric supercells where such data still determine every coefficient."""
+    from solvers import finite_displacement_dataset
+
+    for cname, diag in [("bcc_conv", (2, 2, 2))] + ([] if ctx.quick else [("fcc_conv", (1, 1, 2)), ("hcp", (2, 2, 1))]):
+        P = Prepared(cname, diag, rng, shuffle=True)
+        d = finite_displacement_dataset(rng, P.N)
+        n = len(d)
+        f = rng.normal(size=(n, P.N, 3))
+        for orders in ((2,), (3,), (2, 3)):
+            if not P.usable(orders):
+                continue
+            try:
+                base = fit(P, orders, d, f, n + 1)
+            except np.linalg.LinAlgError:
+                ctx.count("sparse-data-singular")
+                continue
+            rep = {**P.describe(), "orders": list(orders), "disps": d.tolist(), "forces": f.tolist()}
+            checks = [(f"batch={b}", (d, f, b)) for b in (1, 3, 7, 32)]
+            perm = rng.permutation(n)
+            checks += [("permutation[batch=5]", (d[perm], f[perm], 5)), ("duplication[batch=11]", (np.concatenate([d, d]), np.concatenate([f, f]), 11))]
+            for name, (dd, ff, bs) in checks:
+                ctx.case({"cell": P.sc["name"], "orders": list(orders), "sparse_data_relation": name, "n_snap": n}, nontrivial=True)
+                ctx.count("sparse-data-relation")
+                try:
+                    got = fit(P, orders, dd, ff, bs)
+                except np.linalg.LinAlgError as e:
+                    ctx.fail("oracle", prefix, f"{P.sc['name']} orders {orders}: finite-displacement dataset, {name}: the fit raised {e} although the single-batch fit succeeded", replay={**rep, "relation": name}, has_input=True)
+                    continue
+                ok, m, err = close(got, base, tol=1e-6)
+                if not ok:
+                    ctx.fail("oracle", prefix, f"{P.sc['name']} orders {orders}: finite-displacement dataset (exact zeros, clamped atom, sign-definite columns): fc{m} changes by {err:.2e} (relative) with {name}", replay={**rep, "relation": name}, has_input=True)
